@@ -82,6 +82,13 @@ AllDigits(s, a, b) == \A j \in a..b : IsDigit(s[j])
 RECURSIVE DecVal(_, _, _, _)
 DecVal(s, a, b, acc) == IF a > b THEN acc ELSE DecVal(s, a + 1, b, acc * 10 + (s[a] - 48))
 
+(* zeros (and the point) before the first non-zero mantissa digit; digits of the exponent beyond 32000 *)
+RECURSIVE LeadZeros(_, _, _)
+LeadZeros(s, a, b) == IF a >= b THEN 0 ELSE IF s[a] = 48 THEN 1 + LeadZeros(s, a + 1, b) ELSE IF s[a] = 46 THEN LeadZeros(s, a + 1, b) ELSE 0
+RECURSIVE ExpVal(_, _, _, _)
+ExpVal(s, a, b, acc) == IF a >= b \/ acc > 32000 THEN acc ELSE ExpVal(s, a + 1, b, acc * 10 + (s[a] - 48))
+ExpBeyond(s, a, b) == ExpVal(s, a, b, 0) > 32000
+
 (* One data element starting at k.  Result [r, next]: r = W(<<el>>) / M / U, next = position after it *)
 Datum(s, k) ==
     LET c == At(s, k)  n == Len(s) IN
@@ -103,7 +110,12 @@ Datum(s, k) ==
                ne == IF hasExp THEN xe ELSE f                            \* end of the NRf
                w  == SkipWs(s, ne)
                y  == At(s, w)
-           IN IF x \in {69, 101} /\ ~hasExp THEN [r |-> Unspec("E-without-exponent-digits"), next |-> f]
+               \* IEEE 488.2 7.7.2.4.1 lets a device refuse a mantissa of more than 255 digits (leading zeros not counted) and an
+               \* exponent beyond +-32000: whether such an element lexes is left open here (the conversions have their own say, C07/C08)
+               lead == LeadZeros(s, k1, f)
+               big  == (md - lead > 255) \/ (hasExp /\ ExpBeyond(s, xs, xe))
+           IN IF big THEN [r |-> Unspec("numeric-beyond-488.2-size-limits"), next |-> ne]
+              ELSE IF x \in {69, 101} /\ ~hasExp THEN [r |-> Unspec("E-without-exponent-digits"), next |-> f]
               ELSE IF ~hasExp /\ w > ne /\ y \in {69, 101}
                       /\ (LET z == SkipWs(s, w + 1) IN IsDigit(At(s, z)) \/ At(s, z) \in {43, 45})
                    THEN [r |-> Unspec("white-space-before-exponent"), next |-> w]
